@@ -204,4 +204,175 @@ end
 theorem C20_options_nodup (b : BKI) : (usedOptions b).Nodup :=
   nodup_usedBKI b [] List.nodup_nil
 
+/-- **All namespaces.**  `get_icu_keys` walks the builder keys of every namespace: an option is
+requested iff the keys of some namespace use it -/
+theorem C20_icu_options_iff (out : Pipeline.Output) (o : Opt) :
+    o ∈ icuOptions out ↔ ∃ ns ∈ out.nss, KeysUse ns.keys o := by
+  unfold icuOptions
+  rw [mem_foldl_iff (fun acc (ns : Pipeline.NsOut) => usedBKI ns.keys acc) (fun ns o => KeysUse ns.keys o) o
+    (fun a ns => by unfold KeysUse; exact mem_usedBKI o ns.keys a)]
+  simp
+
+/-! ### from the signatures back to the translations (uses C08) -/
+
+open I18nVerif.Occ I18nVerif.Keys in
+/-- **One key, all locales.**  Take any key: the default locale's value `v0` creates it, the other
+locales' values are merged into it (`Keys.mergeAll`).  Then the key's signature asks for option `o`
+iff the value of *some locale* uses it: contains a plural node (for `Plurals`), or a variable with
+a formatter of that family — at any depth inside the value (components, range branches, plural
+forms, resolved foreign keys). -/
+theorem C20_key_uses_iff (recMerge : MergeRec) (kp : KeyPath) (fuel f2 : Nat) (strs : List Str)
+    (v0 : PV) (iol0 : IOL) (d : Defaults) (ls : List Contribution) (lv' : LV) (o : Opt)
+    (h0 : getKeysInner fuel (indexStrings f2 v0 strs).1 (.lit .string) true = .ok iol0)
+    (h : mergeAll recMerge kp ls (.value iol0 d) = .ok lv') :
+    (∃ k ∈ leavesLV lv', ∃ p ∈ k.vars, InfoUses p.2 o) ↔ ∃ v ∈ v0 :: ls.map (·.cur), ValueUses v o := by
+  obtain ⟨iol', d', rfl, a1, a2, a3, a4⟩ := C08_required_arguments recMerge kp fuel f2 strs v0 iol0 d ls lv' h0 h
+  have hs := C08_signature_sorted recMerge kp fuel f2 strs v0 iol0 d h0 ls iol' d' h
+  have hleaf : (∃ k ∈ leavesLV (.value iol' d'), ∃ p ∈ k.vars, InfoUses p.2 o) ↔
+      ∃ p ∈ iol'.keysMut.vars, InfoUses p.2 o := by
+    cases iol' with
+    | interpol K => simp [leavesLV, IOL.keysMut]
+    | lit t => simp [leavesLV, IOL.keysMut]
+  rw [hleaf]
+  constructor
+  · rintro ⟨p, hp, hu⟩
+    have hget := get?_of_mem_sorted _ hs p hp
+    rcases hu with ⟨rfl, hc⟩ | ⟨f, hf, hfo⟩
+    · have : countOf iol'.keysMut p.1 = some .plural := by simp [countOf, info, hget, hc]
+      obtain ⟨v, hv, hm⟩ := (a4 _ _).mp this
+      exact ⟨v, hv, Or.inl ⟨rfl, p.1, hm⟩⟩
+    · have : f ∈ fmtsOf iol'.keysMut p.1 := by simp [fmtsOf, info, hget, hf]
+      obtain ⟨v, hv, hm⟩ := (a3 _ _).mp this
+      exact ⟨v, hv, Or.inr ⟨p.1, f, hm, hfo⟩⟩
+  · rintro ⟨v, hv, hu⟩
+    rcases hu with ⟨rfl, n, hm⟩ | ⟨n, f, hm, hfo⟩
+    · have hc := (a4 n .plural).mpr ⟨v, hv, hm⟩
+      simp only [countOf, info] at hc
+      cases hg : AMap.get? n iol'.keysMut.vars with
+      | none => rw [hg] at hc; cases hc
+      | some i =>
+        rw [hg] at hc
+        exact ⟨(n, i), mem_of_get? hg, Or.inl ⟨rfl, hc⟩⟩
+    · have hc := (a3 n f).mpr ⟨v, hv, hm⟩
+      simp only [fmtsOf, info] at hc
+      cases hg : AMap.get? n iol'.keysMut.vars with
+      | none => rw [hg] at hc; simp at hc
+      | some i =>
+        rw [hg] at hc
+        exact ⟨(n, i), mem_of_get? hg, Or.inr ⟨f, hc, hfo⟩⟩
+
+/-- **The full statement of C20 on the pipeline** (not proved here: it needs the bookkeeping of
+`make_builder_keys` / `Locale::merge` through every key and subkey level — which value of which
+locale reaches which `merge` call — on top of `C20_icu_options_iff` (all keys, all depths, all
+namespaces) and `C20_key_uses_iff` (one key, all locales)): the options requested are exactly
+those used by the resolved value of some key of some locale of some namespace, at any depth. -/
+def C20_full_statement : Prop :=
+  ∀ (inp : Pipeline.Input) (w : World) (ws : List Warning) (out : Pipeline.Output),
+    Pipeline.resolved inp = .ok (w, ws) → Pipeline.run inp = .ok out →
+    ∀ o, o ∈ icuOptions out ↔
+      ∃ ns ∈ w.nss, ∃ l ∈ ns.locales, ∃ v ∈ leafValuesK l.keys, ValueUses v o
+
+/-- `get_locales` on the pipeline: the full statement (not proved: it needs "every stage keeps the
+locales' names and order" through decoding, `merge_plurals`, foreign-key resolution and `check_locales`) -/
+def C20_locales_full_statement : Prop :=
+  ∀ (inp : Pipeline.Input) (out : Pipeline.Output), Pipeline.run inp = .ok out → out.nss ≠ [] →
+    getLocales out = inp.cfg.locales
+
+/-! ### the locales reported: the `check_locales` stage keeps names and order -/
+
+theorem makeBuilderKeys_name (dflt : Str) (fuel : Nat) (path : KeyPath) (loc : Loc) (strs : List Str)
+    (l' : Loc) (b : BKI) (s' : List Str) (h : makeBuilderKeys dflt fuel path loc strs = .ok (l', b, s')) :
+    l'.name = loc.name := by
+  cases fuel with
+  | zero => simp [makeBuilderKeys] at h
+  | succ fuel =>
+    rw [makeBuilderKeys] at h
+    split at h
+    · simp only [Res.ok.injEq, Prod.mk.injEq] at h; rw [← h.1]; rfl
+    · cases h
+    · cases h
+
+theorem mergeLocale_name (suppress : Bool) (top : Str) (dto : DefaultTo) (fuel : Nat) (path : KeyPath)
+    (loc : Loc) (bki : BKI) (st : St) (l' : Loc) (b : BKI) (st' : St)
+    (h : mergeLocale suppress top dto fuel path loc bki st = .ok (l', b, st')) : l'.name = loc.name := by
+  cases fuel with
+  | zero => simp [mergeLocale] at h
+  | succ fuel =>
+    rw [mergeLocale] at h
+    split at h
+    · cases h
+    · cases h
+    · simp only [Res.ok.injEq, Prod.mk.injEq] at h; rw [← h.1]; rfl
+
+theorem checkGo_names (suppress : Bool) (fuel : Nat) (inherits : List (Str × Str)) (dl : Loc) (path : KeyPath) :
+    ∀ (ls acc : List Loc) (bki : BKI) (ws : List Warning) (out : List Loc) (b : BKI) (ws' : List Warning),
+    checkLocalesInner.go suppress fuel inherits dl path ls acc bki ws = .ok (out, b, ws') →
+    out.map Loc.name = acc.map Loc.name ++ ls.map Loc.name := by
+  intro ls
+  induction ls with
+  | nil =>
+    intro acc bki ws out b ws' h
+    simp only [checkLocalesInner.go, Res.ok.injEq, Prod.mk.injEq] at h
+    simp [← h.1]
+  | cons l rest ih =>
+    intro acc bki ws out b ws' h
+    rw [checkLocalesInner.go] at h
+    split at h
+    · cases h
+    · cases h
+    · rename_i l' bki' st hm
+      have := ih _ _ _ _ _ _ h
+      rw [this]
+      have hn := mergeLocale_name _ _ _ _ _ _ _ _ _ _ _ hm
+      simp [Loc.name] at hn ⊢
+      exact hn
+
+/-- **`check_locales` keeps the locales, by name and in order** (the part of "the locales reported
+are exactly the configured ones" that lives in the checked stage; see `C20_locales_full_statement`) -/
+theorem C20_locales_check_partial (suppress : Bool) (fuel : Nat) (inherits : List (Str × Str)) (ns : Option Str)
+    (locs : List Loc) (ws : List Warning) (out : List Loc) (b : BKI) (ws' : List Warning)
+    (h : checkLocalesInner suppress fuel inherits ns locs ws = .ok (out, b, ws')) :
+    out.map Loc.name = locs.map Loc.name := by
+  cases locs with
+  | nil => simp [checkLocalesInner] at h
+  | cons dl others =>
+    simp only [checkLocalesInner] at h
+    split at h
+    · cases h
+    · cases h
+    · rename_i dl' bki strs hmk
+      split at h
+      · cases h
+      · cases h
+      · rename_i locales bki' ws'' hgo
+        simp only [Res.ok.injEq, Prod.mk.injEq] at h
+        rw [← h.1, checkGo_names _ _ _ _ _ _ _ _ _ _ _ _ hgo]
+        have := makeBuilderKeys_name _ _ _ _ _ _ _ _ hmk
+        simp [Loc.name] at this ⊢
+        exact this
+
+/-- hence `get_locales` of a checked namespace reports the names that went into the check -/
+theorem C20_get_locales_partial (inp : Pipeline.Input) (ns : NS) (ws : List Warning)
+    (locs : List Loc) (b : BKI) (ws' : List Warning) (rest : List Pipeline.NsOut) (nsd : Bool)
+    (h : checkLocalesInner inp.suppress 1000000 inp.cfg.inherits ns.key ns.locales ws = .ok (locs, b, ws')) :
+    getLocales ⟨inp.cfg.locales, nsd, ⟨ns.key, locs, b⟩ :: rest, ws'⟩ = ns.locales.map Loc.name := by
+  simp only [getLocales]
+  exact C20_locales_check_partial _ _ _ _ _ _ _ _ _ h
+
+/-! ### examples -/
+
+private def s (x : String) : Str := x.toList
+private def ik (vars : List (Str × VarInfo)) : IOL := .interpol ⟨[], vars⟩
+/-- a plural count two subkey levels down, a currency formatter at top level, a literal key -/
+private def bki1 : BKI :=
+  [(s "a", .value (.lit .string) ⟨s "en", []⟩),
+   (s "b", .value (ik [(s "x", ⟨[.none, .currency .short (s "USD")], none⟩)]) ⟨s "en", []⟩),
+   (s "c", .subkeys [] [(s "d", .subkeys [] [(s "e", .value (ik [(s "n", ⟨[.none], some .plural⟩),
+      (s "m", ⟨[], some (.range .u8)⟩)]) ⟨s "en", []⟩)])])]
+example : usedOptions bki1 = [.formatCurrency, .plurals] := by decide
+example : usedOptions [(s "a", .value (ik [(s "x", ⟨[.date .long, .time .short, .dateTime .full .full, .list .and .wide,
+    .number .auto], some (.range .i32)⟩)]) ⟨s "en", []⟩)] = [.formatDateTime, .formatList, .formatNums] := by decide
+example : KeysUse bki1 .plurals :=
+  ⟨_, by simp [bki1, leaves, leavesLV, ik]; exact Or.inr rfl, (s "n", ⟨[.none], some .plural⟩), by simp, Or.inl ⟨rfl, rfl⟩⟩
+
 end I18nVerif.Datakey
